@@ -786,7 +786,9 @@ class Table(BlockToken):
         start_line = lines.line_number()
         while lines.peek() is not None and '|' in lines.peek():
             line_buffer.append(next(lines))
-        if len(line_buffer) < 2 or not cls.delimiter_row_pattern.fullmatch(line_buffer[1]):
+        # (the header row needs a pipe as well: start() is not consulted when a paragraph is interrupted)
+        if (len(line_buffer) < 2 or '|' not in line_buffer[0]
+                or not cls.delimiter_row_pattern.fullmatch(line_buffer[1])):
             lines.set_pos(anchor)
             return None
         return line_buffer, start_line
